@@ -697,7 +697,6 @@ func checkEpochPairing(p *core.Prog, r *core.Report, ds *core.Describer, rule st
 	return n
 }
 
-
 // skipCond is a branch, inside the innermost loop around a target instruction, that decides whether the target
 // is reached in the current iteration.
 type skipCond struct {
